@@ -13,7 +13,8 @@ concatenate, sort, cumsum, diff) returns a fresh array; assignment writes into t
 alias sees it.
 
 Reference semantics (S): every array variable denotes a cell of a store of plain lists of rows;
-aliases share the cell.
+aliases share the cell.  `poke` is a write to one cell of the flat view (`x.ravel()[k] = v`, or the same
+write through the numpy array the RaggedArray was constructed over -- the constructor does not copy).
 -/
 namespace Model.Heap
 
@@ -32,6 +33,8 @@ inductive Stmt where
   | read (src : Nat)                                   -- observe x_src.tolist()
   | readIdx (src : Nat) (idx : Index)                  -- observe x_src[idx]
   | readSum (src : Nat)                                -- observe x_src.sum(axis=-1)
+  | poke (dst : Nat) (k : Nat) (v : Int)               -- x_dst.ravel()[k] = v, or the same write through the
+                                                       -- numpy array x_dst was constructed over
   deriving Repr
 
 inductive Obs where
@@ -87,6 +90,11 @@ def step (s : State) : Stmt → State × Obs
   | .read x => (s, .rows ((s.arr x).map RA.rows))
   | .readIdx x idx => (s, .res ((s.arr x).bind (fun a => getitem a idx)))
   | .readSum x => (s, .sums ((s.arr x).bind (fun a => reduceRowsSum a)))
+  | .poke x k v => match s.arr x, s.var x with
+      | some a, some bv =>
+          if k < a.data.length then ({ s with bufs := s.bufs.set bv.1 (a.data.set k v) }, .made true)
+          else (s, .made false)
+      | _, _ => (s, .made false)
 where
   reduceRowsSum (a : RA Int) : Option (List Int) := some (a.rows.map List.sum)
 
@@ -135,6 +143,11 @@ def stepS (s : Store) : Stmt → Store × Obs
   | .read x => (s, .rows (s.val x))
   | .readIdx x idx => (s, .res ((s.val x).bind (fun r => Py.getitem r idx)))
   | .readSum x => (s, .sums ((s.val x).map (fun r => r.map List.sum)))
+  | .poke x k v => match s.val x, s.var x with
+      | some r, some c =>
+          if k < (r.map List.length).sum then ({ s with cells := s.cells.set c (Spec.setFlat r k v) }, .made true)
+          else (s, .made false)
+      | _, _ => (s, .made false)
 
 def runS (s : Store) : List Stmt → List Obs
   | [] => []
